@@ -697,6 +697,29 @@ pub fn gen_fault(rng: &mut Rng, thorough: bool, out: &mut Vec<String>) {
             }
         }
     }
+    // one LARGE publish (more than a thousand records in the commit), enumerated: whatever the storage manager
+    // does with a big commit log, a rejected write must leave nothing behind
+    let big: &[(&str, &str)] = if thorough { &[("wv1", "none"), ("exp", "default"), ("wv1", "1ms")] } else { &[("wv1", "none"), ("exp", "default")] };
+    for (cfg, cache) in big {
+        out.push(format!("fx.reset {cfg} {cache} off"));
+        out.push(format!("ck {}", key_hex(&rt)));
+        let n = 420usize;
+        let names: Vec<Vec<u8>> = (0..n).map(|i| vec![0x75, (i >> 8) as u8, (i & 0xff) as u8, rng.below(256) as u8]).collect();
+        for u in &names {
+            for v in 1..=2u64 {
+                for fresh in [true, false] {
+                    out.push(format!("vrf {} {} {} {}", hex_or_dash(u), if fresh { "F" } else { "S" }, v, show_label(&vrf_label(&rt, cfg, u, fresh, v))));
+                }
+            }
+        }
+        let pairs = |rng: &mut Rng, r: std::ops::Range<usize>| r.map(|i| format!("{} {}", hex_or_dash(&names[i]), hex_or_dash(&rng.bytes(3)))).collect::<Vec<_>>().join(" ");
+        out.push(format!("fx.publish {}", pairs(rng, 0..12)));
+        // 8 updates and 408 insertions
+        let batch = pairs(rng, 4..n);
+        out.push(format!("fx.enum {batch}"));
+        out.push(format!("fx.publish {batch}"));
+        out.push(format!("fx.enum {}", pairs(rng, 0..3)));
+    }
 }
 
 
